@@ -751,6 +751,11 @@ def conversions(ck, rule):
             if isinstance(n, ast.Return) and isinstance(n.value, ast.Call) and dotted(n.value.func) == conv and n.value.args:
                 a = n.value.args[0]
                 okc = isinstance(a, ast.Call) and prog.resolve_call(m, a) == f.qualname and a.args and dotted(a.args[0]) == arg
+        if not okc:
+            # path-based: a shared helper (self._as_python_scalar(int)) is inlined, the returned expression is what it denotes
+            rets = [pf_ for pf_ in fpaths(prog, m) if pf_.end == "return" and pf_.ret is not None]
+            okc = bool(rets) and all(isinstance(pf_.ret, ast.Call) and dotted(pf_.ret.func) == conv and pf_.ret.args and isinstance(pf_.ret.args[0], ast.Call)
+                                     and prog.resolve_call(m, pf_.ret.args[0]) == f.qualname and pf_.ret.args[0].args and dotted(pf_.ret.args[0].args[0]) == arg for pf_ in rets)
         ck.check(okc, rule, m, "%s() is %s(self.astype(%s))" % (conv, conv, arg), "%s does not delegate to astype(%s)" % (name, arg), m.node)
     m = prog.func("objects.Fxp.__bool__")
     okb = any(isinstance(n, ast.Return) and isinstance(n.value, ast.Call) and dotted(n.value.func) == "bool" and n.value.args and isinstance(n.value.args[0], ast.Call)
